@@ -53,7 +53,7 @@ func (f c09Factory) SignalToAdd(address, action string) error {
 
 func c09Exec(cfg *C09Cfg, ch vs.Chooser, trace bool, order []int) (string, *vs.Result) {
 	outcome := ""
-	res := vs.Run(vs.Config{Chooser: ch, Horizon: 20000, Trace: trace}, func() {
+	res := vs.Run(vs.Config{Chooser: ch, PostUnlockPoints: true, Horizon: 20000, Trace: trace}, func() {
 		vs.NoChoice(true)
 		if !c18TransportSet {
 			// the in-process transport of the controller-atomicity harness serves the model nodes
